@@ -25,7 +25,8 @@ class T:
 
 INT, REAL, BOOL, STR = T('int'), T('real'), T('bool'), T('str')
 NONE = T('none')
-FP = T('fp')                 # IEEE-754 binary64 (used only where rounding / NaN behaviour is the property)
+FP = T('fp')
+PYVAL = T('pyval')           # a dynamically typed Python value (used where the code tests types with isinstance: C09)                 # IEEE-754 binary64 (used only where rounding / NaN behaviour is the property)
 TRANS = T('trans')            # a transition tuple (label|probability, target): see DESIGN 2.3 / engine docstring
 
 
@@ -93,6 +94,17 @@ def sort(t):
     elif k == 'fp':
         from z3 import Float64
         r = Float64()
+    elif k == 'pyval':
+        d = Datatype('PyVal')
+        d.declare('pI', ('iv', IntSort()))
+        d.declare('pF', ('fv', RealSort()))
+        d.declare('pS', ('sv', StringSort()))
+        d.declare('pB', ('bv', BoolSort()))
+        d.declare('pN')
+        d.declare('pT', ('tlen', IntSort()), ('t0', d), ('t1', d))     # a tuple: its length and its first two slots
+        d.declare('pL', ('lref', IntSort()))                          # a list object (reference into the PyVal list heap)
+        d.declare('pO', ('oid', IntSort()))                           # anything else
+        r = d.create()
     elif k == 'trans':
         d = Datatype('Trans')
         d.declare('mkT', ('lab', StringSort()), ('prob', RealSort()), ('tgt', IntSort()))
@@ -146,6 +158,8 @@ def default(t):
     if k == 'fp':
         from z3 import FPVal, Float64
         return FPVal(0.0, Float64())
+    if k == 'pyval':
+        return sort(t).pN
     if k == 'trans':
         return sort(t).mkT(StringVal(""), RealVal(0), IntVal(0))
     if k == 'tup':
